@@ -1,3 +1,13 @@
--- Root of the `Rio` library: models, generated facts, proofs, property theorems, audits.
+-- Root of the `Rio` library: models, specs, proofs and property theorems.
 import Rio.Basic
 import Rio.Model.Path
+import Rio.Model.Hash
+import Rio.Model.Sha
+import Rio.Model.Pack
+import Rio.Spec.TreeHash
+import Rio.Props.C01
+import Rio.Props.C04
+import Rio.Props.C05
+import Rio.Props.C12
+import Rio.Props.C17
+import Rio.Props.C18
